@@ -88,7 +88,7 @@ def is_full_slice(ex, p, idx):
 @REG.specfunc()
 def is_np_s(ex, p, a):
     """the index-expression helper np.s_ (np.s_[a:b] is slice(a, b))"""
-    return VBool(_k(ex, p, a) == lib_const("np.s_").t)
+    return VBool(bool(z3.simplify(_k(ex, p, a)).eq(z3.simplify(lib_const("np.s_").t))))      # syntactic: np.s_ is used literally
 
 
 @REG.specfunc()
